@@ -83,33 +83,74 @@ def run(ctx: Ctx) -> None:
     for k, v in ALLOW.items():
         ctx.accept("C09.R1", k, v)
 
-    # ---- R2 relabel write-once
+    # ---- R2 relabel write-once: relabel_nodes is interpreted (sa/modelinterp, helpers inlined) on a symbolic node
+    from ..modelinterp import Budget, Effect, Interp, Sym, UNKNOWN, _NONE
     rl = prog.get_function(RELABEL)
     node_p = rl.params[0]
-    guard_idx = None
-    for i, st in enumerate(rl.node.body):
-        if isinstance(st, ast.If) and any(isinstance(x, ast.Constant) and x.value == "gengy_labeled" for x in ast.walk(st.test)) \
-                or isinstance(st, ast.If) and any(isinstance(x, ast.Attribute) and x.attr == "gengy_labeled" for x in ast.walk(st.test)):
-            if st.body and isinstance(st.body[-1], ast.Return):
-                guard_idx = i
-                break
-    ctx.ob("C09.R2", rl, rl.node.body[guard_idx] if guard_idx is not None else rl.node,
-           "relabel_nodes returns early for already labelled nodes", guard_idx is not None,
-           "" if guard_idx is not None else "no 'already labelled -> return cached values' guard: shared subtrees are rewritten")
-    if guard_idx is not None:
-        gline = rl.node.body[guard_idx].lineno
-        stores = [a for a in walk_local(rl.node) if isinstance(a, (ast.Assign, ast.AugAssign))
-                  and any(isinstance(t, ast.Attribute) and isinstance(t.value, ast.Name) and t.value.id == node_p
-                          for t in (a.targets if isinstance(a, ast.Assign) else [a.target]))]
-        for a in stores:
-            ok = a.lineno > gline
-            ctx.ob("C09.R2", rl, a, f"metadata store {norm(a)[:50]} behind the labelled-guard", ok,
-                   "" if ok else "node metadata is written before the 'already labelled' check: a reused subtree of a parent is modified")
-        ctx.floor("C09.R2", len(stores), 5, "metadata stores in relabel_nodes")
-        # the flag itself is set on every labelling path
-        sets = [a for a in stores if any(isinstance(t, ast.Attribute) and t.attr == "gengy_labeled" for t in (a.targets if isinstance(a, ast.Assign) else [a.target]))]
-        ctx.ob("C09.R2", rl, sets[0] if sets else rl.node, "labelled flag is set when metadata is written", bool(sets),
-               "" if sets else "gengy_labeled is never set: nodes are relabelled (rewritten) on every visit")
+
+    def relabel_runs(labelled: bool, terminal: bool):
+        def call_model(it, call, env, args, kwargs):
+            nm = call_name(call)
+            if nm == "getattr" and len(args) >= 2 and isinstance(args[0], Sym) and args[0].tag == "node" and args[1] == "gengy_labeled":
+                return labelled
+            if nm == "hasattr" and len(args) == 2 and isinstance(args[0], Sym) and args[0].tag == "node":
+                return labelled if args[1] == "gengy_labeled" else (not terminal if args[1] == "gengy_init_values" else UNKNOWN)
+            if nm == "is_terminal":
+                return terminal
+            if nm == "is_builtin":
+                return False
+            if nm == "is_abstract":
+                return False
+            if nm == "type" and len(args) == 1 and isinstance(args[0], Sym):
+                return Sym("type:" + args[0].tag)
+            if nm == "get_arguments":
+                return [["f1", Sym("T1")]]
+            if nm == rl.name and isinstance(call.func, ast.Name):
+                it.trace.append(Effect("call", "relabel_child", tuple(args[:1]), {}, node=call))
+                return [1, 1, {}, 1]
+            if nm == "defaultdict":
+                return {}
+            if nm == "isinstance" and len(args) == 2 and isinstance(args[0], Sym):
+                return False
+            return None
+
+        it = Interp(prog, None, lambda *_: None, call_model, max_depth=4, max_traces=32)
+        env = {node_p: Sym("node"), rl.params[1]: Sym("grammar"), f"{node_p}.gengy_labeled": labelled, f"{node_p}.gengy_init_values": [Sym("child")],
+               f"{rl.params[1]}.expansion_depthing": False}
+        for p_ in rl.params[2:]:
+            env[p_] = False
+        return it.run(rl, env)
+
+    def node_stores(trace):
+        return [e for e in trace if e.kind == "store" and e.name.startswith("node.")]
+
+    try:
+        runs_l = relabel_runs(True, False)
+        bad = [norm(node_stores(tr)[0].node)[:60] for tr, rv, _ in runs_l if node_stores(tr)]
+        kids = any(e.kind == "call" and e.name == "relabel_child" for tr, _, _ in runs_l for e in tr)
+        ok_l = not bad and not kids
+        ctx.ob("C09.R2", rl, rl.node, "relabel_nodes leaves an already labelled node (and its subtree) untouched", ok_l,
+               "" if ok_l else (f"node metadata is written although the node is already labelled ('{bad[0]}'): a subtree shared with a parent is modified"
+                                if bad else "an already labelled node's children are visited again: shared subtrees are relabelled"))
+        verdicts = []
+        for terminal in (True, False):
+            runs_u = relabel_runs(False, terminal)
+            live = [(tr, rv) for tr, rv, _ in runs_u if not any(e.kind == "raise" for e in tr)]
+            setf = [any(e.name == "node.gengy_labeled" and e.args and e.args[0] is True for e in node_stores(tr)) for tr, rv in live]
+            wrote = [bool(node_stores(tr)) for tr, rv in live]
+            if not live:
+                verdicts.append((None, f"no path of relabel_nodes completes for an unlabelled {'terminal' if terminal else 'inner'} node in the model"))
+            elif all(s_ for s_, w_ in zip(setf, wrote) if w_) and any(wrote):
+                verdicts.append((True, ""))
+            elif not any(wrote):
+                verdicts.append((None, "no metadata store reached in the model"))
+            else:
+                verdicts.append((False, f"metadata of an unlabelled {'terminal' if terminal else 'inner'} node is written without setting gengy_labeled: "
+                                        f"the node is relabelled (rewritten) on every visit"))
+        ok_u = False if any(v is False for v, _ in verdicts) else (None if any(v is None for v, _ in verdicts) else True)
+        ctx.ob("C09.R2", rl, rl.node, "labelled flag is set whenever metadata is written", ok_u, next((w for v, w in verdicts if v is not True), ""))
+    except Budget:
+        ctx.ob("C09.R2", rl, rl.node, "relabel_nodes write-once", None, "too many interpretations")
 
     # ---- R3 offspring gene containers
     n3 = 0
